@@ -298,27 +298,39 @@ impl Pattern {
      * verified that the pattern is valid and the braces are correctly balanced.
      *
      * The algorithm expands the right-most opening brace - an innermost group,
-     * so its closing brace is the first one that follows - and recursively
-     * calls Pattern on each expansion, which in turn expands any remaining
-     * groups, to verify that there is a match.
+     * so its closing brace is the first one that follows - into one pattern
+     * per alternative.  Expansions that still contain a group are kept on an
+     * explicit work list and expanded in turn, rather than by recursing through
+     * Pattern::matches(), so that the depth of the call stack does not grow
+     * with the number of groups in the pattern.  A fully expanded pattern is
+     * compiled and matched in its own right.
      */
     fn alternate_match(pattern: &str, pkg: &str) -> bool {
-        if let Some(i) = pattern.rfind('{') {
-            let (first, rest) = pattern.split_at(i);
-            /* This shouldn't fail as new() already verified, but... */
-            let Some(n) = rest.find('}') else {
-                return false;
-            };
-            let (matches, last) = rest.split_at(n + 1);
-            let matches = &matches[1..matches.len() - 1];
+        let mut work: Vec<String> = vec![pattern.to_string()];
 
-            for m in matches.split(',') {
-                let fmt = format!("{}{}{}", first, m, last);
-                if let Ok(pat) = Pattern::new(&fmt) {
+        while let Some(pattern) = work.pop() {
+            if !Self::quick_pkg_match(&pattern, pkg) {
+                continue;
+            }
+            let Some(i) = pattern.rfind('{') else {
+                if let Ok(pat) = Pattern::new(&pattern) {
                     if pat.matches(pkg) {
                         return true;
                     }
                 }
+                continue;
+            };
+            let (first, rest) = pattern.split_at(i);
+            /* This shouldn't fail as new() already verified, but... */
+            let Some(n) = rest.find('}') else {
+                continue;
+            };
+            let (matches, last) = rest.split_at(n + 1);
+            let matches = &matches[1..matches.len() - 1];
+
+            /* Pushed in reverse so that alternatives are tried left to right. */
+            for m in matches.rsplit(',') {
+                work.push(format!("{}{}{}", first, m, last));
             }
         }
         false
